@@ -7,7 +7,7 @@ from enum import Enum, IntEnum
 
 from asyncfix import FMsg, FTag
 from asyncfix.codec import Codec
-from asyncfix.errors import FIXConnectionError
+from asyncfix.errors import EncodingError, FIXConnectionError
 from asyncfix.journaler import Journaler
 from asyncfix.message import FIXMessage, MessageDirection
 from asyncfix.protocol import FIXProtocolBase
@@ -259,12 +259,18 @@ class AsyncFIXConnection:
                 " order to get valid response handling"
             )
 
-        encoded_msg = self._codec.encode(msg, self._session).encode("utf-8")
+        fix_msg = self._codec.encode(msg, self._session)
+        try:
+            # BodyLength / CheckSum are calculated per character, and decoder reads
+            #  latin-1, so the wire encoding must keep one byte per character
+            encoded_msg = fix_msg.encode("latin-1")
+        except UnicodeEncodeError as exc:
+            raise EncodingError(f"FIX message is not representable on the wire: {exc}")
 
         msg_raw = encoded_msg.replace(b"\x01", b"|")
         self.log.debug(
             f"[{self._connection_role.name}]:send_msg ({self._connection_state.name})"
-            f" {repr(msg.msg_type)}\n\t {msg_raw.decode()}\n"
+            f" {repr(msg.msg_type)}\n\t {msg_raw.decode("latin-1")}\n"
         )
 
         self._socket_writer.write(encoded_msg)
